@@ -198,7 +198,7 @@ func (e *Engine) Paths(fn *ssa.Function, ctx *Ctx, mode Mode) []*Alt {
 	e.pathBusy[k] = true
 	defer delete(e.pathBusy, k)
 	g := e.GraphOf(fn, ctx)
-	if iff := e.splitPoint(g, ctx); iff != nil {
+	if iff := e.splitPoint(g, ctx, mode); iff != nil {
 		// a conditional region with a checking loop: one set of alternatives per outcome
 		var alts []*Alt
 		for _, val := range []bool{true, false} {
@@ -1460,7 +1460,24 @@ func (e *Engine) withBranch(ctx *Ctx, iff *ssa.If, val bool) *Ctx {
 // that guards a region which (a) is bypassed by the other outcome, (b) contains
 // a loop with a rejecting exit, and (c) rejoins the success paths. Such a
 // region's checks dominate no success return, so they are analysed per outcome.
-func (e *Engine) splitPoint(g *Graph, ctx *Ctx) *ssa.If {
+// succeedsIn: the return is a success return for the mode (an error that may
+// be nil; a predicate result that may have the wanted value).
+func (e *Engine) succeedsIn(ret *ssa.Return, mode Mode) bool {
+	switch mode {
+	case ModeTrue, ModeFalse:
+		if n := len(ret.Results); n > 0 {
+			if c, ok := ret.Results[n-1].(*ssa.Const); ok && isBoolType(c.Type()) {
+				return constBool(c) == (mode == ModeTrue)
+			}
+		}
+		return true
+	case ModeAll, ModeNil, ModeNonNil:
+		return true
+	}
+	return !e.RetIsFail(ret)
+}
+
+func (e *Engine) splitPoint(g *Graph, ctx *Ctx, mode Mode) *ssa.If {
 	fn := g.Fn
 	if len(ctx.branch) >= 4 {
 		return nil
@@ -1472,7 +1489,7 @@ func (e *Engine) splitPoint(g *Graph, ctx *Ctx) *ssa.If {
 		if !g.Reach[b.Index] {
 			continue
 		}
-		if ret, ok := b.Instrs[len(b.Instrs)-1].(*ssa.Return); ok && !e.RetIsFail(ret) {
+		if ret, ok := b.Instrs[len(b.Instrs)-1].(*ssa.Return); ok && e.succeedsIn(ret, mode) {
 			succOK[b.Index] = true
 			work = append(work, b.Index)
 		}
@@ -1517,7 +1534,7 @@ func (e *Engine) splitPoint(g *Graph, ctx *Ctx) *ssa.If {
 					continue
 				}
 				seen[u] = true
-				if ret, ok := fn.Blocks[u].Instrs[len(fn.Blocks[u].Instrs)-1].(*ssa.Return); ok && !e.RetIsFail(ret) {
+				if ret, ok := fn.Blocks[u].Instrs[len(fn.Blocks[u].Instrs)-1].(*ssa.Return); ok && e.succeedsIn(ret, mode) {
 					bypass = true
 				}
 				st = append(st, g.Succ[u]...)
